@@ -531,6 +531,18 @@ def check_send_to_dead_peer():
 
 
 def check_server(n_per_client=3):
+    """PortServer on the loopback interface (see _check_server); an exception that escapes from
+    the server's calls is a finding, not a failure of the harness."""
+    try:
+        return _check_server(n_per_client)
+    except Exception as e:
+        import traceback
+        where = [ln.strip() for ln in traceback.format_exc().splitlines() if 'mido/' in ln][-1:] or ['?']
+        return [('server-raises/%s' % type(e).__name__, {'kind': 'server'},
+                 'a PortServer call raised %r (%s)' % (e, where[0]))], None
+
+
+def _check_server(n_per_client=3):
     """PortServer on the loopback interface, two clients."""
     import mido
     import mido.ports as mp
